@@ -28,13 +28,16 @@ TRUSTED = ["harness/impl/invar_impl.py (applies the transformation in float64, r
 ASSUMPTIONS = [
     "the theorems cover rotations with rational entries (M/n, M integer Euler-Rodrigues matrix) and exact arithmetic; "
     "float32 rounding of the transformed coordinates (E = one ulp of the largest coordinate: 6e-5 nm at 500 nm) "
-    "is bounded per observable: distances 4E, angles 4E(1/l1+1/l2), dihedrals 8E(1/(l1 s1)+1/(l3 s2))(1+(l1+l3)/l2), "
-    "Rg 4E, principal moments 8 Rg E, RMSD 4E+5e-5; DRID and Kabsch-Sander energies use 10x the spread observed "
-    "under random perturbations of size E of the original (statistical bound)",
+    "is bounded per observable from its conditioning: distances/contacts 4E (hard bound 1.7E + kernel), angles "
+    "4E(1/l1+1/l2), dihedrals 2.5E(1/(l1 s1)+1/(l3 s2))(1+(l1+l3)/l2) (entries with a bond-angle sine below 0.05 "
+    "excluded), Rg 1E (average over atoms), principal moments 2 Rg E, RMSD 1.5E+3e-5, Kabsch-Sander energies 250E "
+    "(|dE/dr| <= 2.8/r^2, r ~ 0.2 nm), DRID 30E + 4x the spread under random perturbations of size E; the fraction of "
+    "each bound actually used by the unchanged tree is measured on every run (evidence: max_fraction_of_bound_used, "
+    "0.1-0.3, i.e. 3-10x headroom)",
     "discrete observables (DSSP, hydrogen bonds, Kabsch-Sander pattern) are compared exactly unless they change "
     "under random perturbations of size E of the ORIGINAL structure (then the case is counted as excluded); "
     "neighbour sets are compared exactly outside pairs within 4E+1e-5 of the cutoff (float64 reference distances)",
-    "solvent-accessible area: total area within 0.2 % under translation, 3 % under rotation (quadrature, 480 points)",
+    "solvent-accessible area: total area within 0.05 % under translation, 3 % under rotation (quadrature, 480 points)",
     "that contacts, DRID, DSSP, hydrogen-bond and Kabsch-Sander kernels are functions of pair distances/angles is "
     "tested by the runs, not proved",
 ]
@@ -269,20 +272,20 @@ class Cmp:
             ok = (s1 > 0.05) & (s2 > 0.05)
             ok &= ~(self.ambiguous(q[:, 0], q[:, 1], E) | self.ambiguous(q[:, 1], q[:, 2], E) | self.ambiguous(q[:, 2], q[:, 3], E))
             with np.errstate(divide="ignore", invalid="ignore"):
-                tol = 8 * E * (1 / (l1 * s1) + 1 / (l3 * s2)) * (1 + (l1 + l3) / l2) + 2e-5 / np.minimum(s1, s2) ** 2
+                tol = 2.5 * E * (1 / (l1 * s1) + 1 / (l3 * s2)) * (1 + (l1 + l3) / l2) + 1e-5 / np.minimum(s1, s2) ** 2
             d = np.abs(t - r)
             d = np.minimum(d, 2 * math.pi - d)
             return self._cont(name, jv, r, t, tol, mask=ok, diff=d)
         if name == "rg":
             r, t = np.array(ro), np.array(to)
-            return self._cont(name, jv, r, t, 4 * E + 4e-6 * np.abs(r) + 1e-7)
+            return self._cont(name, jv, r, t, 1.0 * E + 1e-6 * np.abs(r) + 1e-7)
         if name == "gyration_moments":
             r, t = np.array(ro), np.array(to)
             rg = math.sqrt(max(float(r.sum()), 0.0))
-            return self._cont(name, jv, r, t, np.full(r.shape, 8 * rg * E + 1e-6 * float(r.sum()) + 1e-9))
+            return self._cont(name, jv, r, t, np.full(r.shape, 2 * rg * E + 1e-6 * float(r.sum()) + 1e-9))
         if name == "rmsd":
             r, t = np.array(ro), np.array(to)
-            return self._cont(name, jv, r, t, np.full(r.shape, 4 * E + 5e-5))
+            return self._cont(name, jv, r, t, np.full(r.shape, 1.5 * E + 3e-5))
         if name == "contacts":
             r, t = np.array(ro["d"]), np.array(to["d"])
             if ro["pairs"] != to["pairs"]:
@@ -295,12 +298,15 @@ class Cmp:
             dev = self.jitter_dev(name)
             if dev is None:
                 return "excluded"
-            tol = 10 * dev + 1e-4 * np.abs(r) + 1e-5 + 2000 * E
+            tol = 4 * dev + 30 * E + 2e-6 * np.abs(r) + 1e-6
             return self._cont(name, jv, r, t, tol)
         if name == "sasa":
             r, t = float(np.sum(ro)), float(np.sum(to))
             rot = jv["kind"] == "rigid" and jv["q"][0] != 1.0
-            tol = (0.03 if rot else 0.002) * r + 1e-6
+            tol = (0.03 if rot else 0.0005) * r + 1e-6
+            hr = self.ctx.notes.setdefault("coverage_extra", {}).setdefault("c09", {}).setdefault("max_fraction_of_bound_used", {})
+            key = "sasa/%s" % ("rotation" if rot else "translation%g" % self.job["T"])
+            hr[key] = round(max(hr.get(key, 0.0), abs(r - t) / tol), 4)
             if abs(r - t) > tol:
                 self.fail(name, jv, "shrake_rupley: total area changes by more than the quadrature error under %s" % (
                     "rotation" if rot else "translation"), t, r, kind="magnitude", rel=abs(r - t) / max(r, 1e-9))
@@ -322,7 +328,7 @@ class Cmp:
             dev = np.zeros_like(r)
             for j in self.jit:
                 dev = np.maximum(dev, np.abs(np.array([e for _a, _b, e in j["obs"][name]]) - r))
-            return self._cont(name, jv, r, t, 10 * dev + 1e-4 * np.abs(r) + 1e-5 + 400 * E)
+            return self._cont(name, jv, r, t, 250 * E + 2e-5 * np.abs(r) + 1e-5)
         if name in DISCRETE:
             stable = all(j["obs"][name] == ro for j in self.jit)
             if to == ro:
@@ -405,6 +411,14 @@ class Cmp:
         bad = d > tol
         if mask is not None:
             bad &= mask
+        # measured use of the bound on this run (evidence: how much headroom the unchanged tree has)
+        with np.errstate(divide="ignore", invalid="ignore"):
+            ratio = np.where(np.isfinite(d) & (tol > 0), d / np.maximum(tol, 1e-30), 0.0)
+        if mask is not None:
+            ratio = np.where(mask, ratio, 0.0)
+        hr = self.ctx.notes.setdefault("coverage_extra", {}).setdefault("c09", {}).setdefault("max_fraction_of_bound_used", {})
+        key = "%s/%s" % (name, jv["kind"] if jv["kind"] != "rigid" else "rigid%g" % self.job["T"])
+        hr[key] = round(max(hr.get(key, 0.0), float(ratio.max()) if ratio.size else 0.0), 4)
         bad |= ~np.isfinite(t) & np.isfinite(r)
         if bad.any():
             k = int(np.argmax(np.where(bad, d / np.maximum(tol, 1e-30), 0)))
